@@ -446,7 +446,7 @@ def run_probe(depth, deep=0):
     for b in (HARNESS, DRIVER):
         with open(b, "rb") as f:
             h.update(f.read())
-    key = "%s-%d-%d" % (h.hexdigest()[:24], depth, deep)
+    key = "%s-%d-%d-lite" % (h.hexdigest()[:24], depth, deep)
     cdir = os.path.join(BUILD, "s1cache")
     cfile = os.path.join(cdir, key + ".json")
     if os.path.exists(cfile):
@@ -459,7 +459,7 @@ def run_probe(depth, deep=0):
         # the large enumeration is produced by several harness processes, each a residue class of the state list
         from concurrent.futures import ThreadPoolExecutor
         with ThreadPoolExecutor(max_workers=NPROC) as ex:
-            parts = list(ex.map(lambda i: harness_lines(["probe", "--depth", str(depth), "--deep", str(deep), "--shard", "%d/%d" % (i, NPROC)]), range(NPROC)))
+            parts = list(ex.map(lambda i: harness_lines(["probe", "--depth", str(depth), "--deep", str(deep), "--lite", "--shard", "%d/%d" % (i, NPROC)]), range(NPROC)))
         req = "".join(parts)
     else:
         req = harness_lines(["probe", "--depth", str(depth), "--deep", str(deep)])
@@ -471,7 +471,7 @@ def run_probe(depth, deep=0):
     try:
         os.makedirs(cdir, exist_ok=True)
         for old_f in os.listdir(cdir):          # keep the cache small: one tree state at a time per (depth, deep)
-            if old_f.endswith("-%d-%d.json" % (depth, deep)):
+            if old_f.endswith("-%d-%d-lite.json" % (depth, deep)) or old_f.endswith("-%d-%d.json" % (depth, deep)):
                 os.remove(os.path.join(cdir, old_f))
         json.dump(dict(n=n, mism=mism[:20000]), open(cfile, "w"))
     except OSError:
